@@ -535,6 +535,120 @@ def w2_comparisons_and_positions(ctx: Ctx):
               'a nested pattern extends the position of its parent', 'changed')
 
 
+def w3_nested_comprehensions(ctx: Ctx):
+    """`[e for x in xs for y in ys for z in zs]` lists its elements outermost-first.  The writer lowers it to one flat
+    tensor over k in [0, |xs| * |ys| * |zs|) and recomputes the three indices from k.  `_visit_list_comp` is evaluated,
+    from its source, for two and three generators with the FPCore constructors replaced by tagged terms; the emitted index
+    expressions are then computed for every k over sizes (2, 3, 2) and must be the digits of k in that mixed radix, each
+    must read the tensor's own iteration variable (not a name the program may use), and each element reference must be
+    bound to the name the element expression reads."""
+    from itertools import product
+
+    from ..minipy import Interp, Obj
+    mod = ctx.repo.module(BACK)
+    funcs = {s.name: s for s in mod.tree.body if isinstance(s, ast.FunctionDef)}
+    cls = ctx.repo.cls(BACK, '_FPCoreCompileInstance')
+    methods = {f.name: f for f in cls.body if isinstance(f, ast.FunctionDef)}
+    fn = methods['_visit_list_comp']
+    tag = lambda name: (lambda *a, **k: (name,) + tuple(a))  # noqa: E731
+    fpc_names = ('Var', 'Ctx', 'Div', 'Fmod', 'Mul', 'Ref', 'Tensor', 'LetStar', 'Let', 'Size', 'Integer', 'Sub', 'Add')
+    for n_gen in (2, 3):
+        counter = [0]
+
+        def fresh(prefix, counter=counter):
+            counter[0] += 1
+            # a program variable named like the prefix exists: the generator hands out a suffixed name
+            return Obj('NamedId', label=f'{prefix}{counter[0]}')
+        targets = [Obj('NamedId', label=nm) for nm in ('x', 'y', 'z')[:n_gen]]
+        comp = Obj('ListComp', targets=targets, iterables=[Obj('Expr', label=f'it{i}') for i in range(n_gen)], elt=Obj('Expr', label='elt'))
+        gensym = Obj('Gensym', fresh=fresh, refresh=lambda t, fresh=fresh: fresh(t.fields['label']))
+        ov = {f'fpc.{nm}': tag(nm) for nm in fpc_names}
+        ov['self._visit_expr'] = lambda e, c: ('expr', e.fields['label'])
+        ov['str'] = lambda o: o.fields['label'] if isinstance(o, Obj) else str(o)
+        it = Interp(funcs, methods=methods, overrides=ov, is_a=lambda k, c: k == c or (k == 'NamedId' and c == 'Id'), self_obj=Obj('_FPCoreCompileInstance', gensym=gensym))
+        term = it.call_function(fn, [comp, None], bound_self=True)
+        # (Let tuple_binds (Let size_binds (Tensor [(k, bound)] (LetStar idx_binds (LetStar ref_binds elt)))))
+        try:
+            _, tuple_binds, (_, size_binds, (_, dims, (_, idx_binds, (_, ref_binds, elt)))) = term
+            (kvar, _bound), = dims
+        except Exception:
+            ctx.bad(BACK, fn, '_FPCoreCompileInstance._visit_list_comp', f'{n_gen} generators: one flat tensor with index and reference bindings', f'shape not read: {str(term)[:200]}')
+            continue
+        sizes_by_name = {sid: sz for (sid, _), sz in zip(size_binds, (2, 3, 2))}
+
+        def ev(t, k):
+            if isinstance(t, tuple):
+                h = t[0]
+                if h == 'Ctx':
+                    return ev(t[2], k)
+                if h == 'Var':
+                    if t[1] == kvar:
+                        return k
+                    if t[1] in sizes_by_name:
+                        return sizes_by_name[t[1]]
+                    raise KeyError(t[1])
+                if h == 'Mul':
+                    return ev(t[1], k) * ev(t[2], k)
+                if h == 'Div':
+                    return ev(t[1], k) // ev(t[2], k)
+                if h == 'Fmod':
+                    return ev(t[1], k) % ev(t[2], k)
+            raise ValueError(t)
+        sizes = (2, 3, 2)[:n_gen]
+        total = 1
+        for s in sizes:
+            total *= s
+        bad = None
+        for k, digits in zip(range(total), product(*[range(s) for s in sizes])):
+            try:
+                got = tuple(ev(e, k) for _, e in idx_binds)
+            except KeyError as ex:
+                bad = f'an index reads `{ex.args[0]}`, which is neither the tensor\'s iteration variable `{kvar}` nor a size: a program variable of that name would be used'
+                break
+            if got != digits:
+                bad = f'flat position {k} of sizes {sizes}: indices {got}, the comprehension order gives {digits}'
+                break
+        ctx.check(bad is None, BACK, fn, '_FPCoreCompileInstance._visit_list_comp', f'{n_gen} generators: the indices are the mixed-radix digits of the flat position, outermost first', bad or '')
+        names = [nm for nm, _ in ref_binds]
+        ctx.check(names == [t.fields['label'] for t in targets], BACK, fn, '_FPCoreCompileInstance._visit_list_comp',
+                  f'{n_gen} generators: each element is bound to the name the element expression reads', f'bound names {names}: the element expression reads {[t.fields["label"] for t in targets]}')
+
+
+def r4_property_values(ctx: Ctx):
+    """The writer annotates with plain Python values (`{'precision': 'integer'}`), a parsed core holds `Data` objects.  A
+    compiled core is re-read in memory (`Function.from_fpcore(FPCoreCompiler().compile(f))`), so the reader has to take
+    both: the premise (what the writer puts into annotations) and the reader's default arm are read side by side."""
+    plain = 0
+    wrapped = 0
+    for q, fn in ctx.repo.functions(BACK):
+        for k in calls_in(fn):
+            if call_name(k) == 'fpc.Ctx' and k.args:
+                d = k.args[0]
+                if isinstance(d, ast.Name):
+                    defs = [s.value for s in walk_no_nested(fn) if isinstance(s, ast.Assign) and any(isinstance(t, ast.Name) and t.id == d.id for t in s.targets)]
+                    d = defs[0] if len(defs) == 1 else d
+                if isinstance(d, ast.Dict):
+                    for v in d.values:
+                        if isinstance(v, ast.Constant) and isinstance(v.value, str):
+                            plain += 1
+                        elif isinstance(v, ast.Call) and (call_name(v) or '').startswith('fpc.Data'):
+                            wrapped += 1
+    fn = ctx.fn(FRONT, '_FPCore2FPy._visit_props')
+    default = None
+    for m in [x for x in ast.walk(fn) if isinstance(x, ast.Match)]:
+        for cs in m.cases:
+            if isinstance(cs.pattern, ast.MatchAs) and cs.pattern.pattern is None:
+                default = cs
+    if default is None:
+        raise ShapeError('_visit_props: default arm not found')
+    t = ' '.join(norm(s, 400) for s in default.body)
+    takes_plain = 'isinstance(v, fpc.Data)' in t and ('else v' in t or 'return v' in t)
+    ctx.check(plain == 0 or takes_plain, FRONT, default.pattern, '_FPCore2FPy._visit_props', f'the reader takes a plain annotation value as it is (the writer emits {plain} of them, {wrapped} wrapped)',
+              f'reads `.value` of every property: re-reading the compiled core of `sum(xs)` fails with AttributeError: \'str\' object has no attribute \'value\'')
+    if plain + wrapped < 5:
+        raise ShapeError(f'only {plain + wrapped} annotation values found in the writer')
+
+
 def r3_loop_condition(ctx: Ctx):
     """The reader turns expressions into statements: a `let` or an `if` inside an expression becomes assignments emitted
     into the statement list of the context it is visited with.  The test of a `while` is evaluated before every trip, so
@@ -584,6 +698,8 @@ def r3_loop_condition(ctx: Ctx):
 
 
 RULES = [
+    Rule('C12.W3', 'writer: a comprehension over several iterables lists its elements outermost-first, reads its own iteration variable and binds the targets', w3_nested_comprehensions, 4, 'T,F'),
+    Rule('C12.R4', 'reader: annotation values written by the compiler (plain strings) are read as they are', r4_property_values, 1, 'F'),
     Rule('C12.R3', 'reader: the statements a `while` condition needs run before every test, not once ahead of the loop', r3_loop_condition, 6, 'F,P'),
     Rule('C12.W2', 'writer: comparison chains keep their meaning (no n-ary !=); tuple positions are indexed outermost first; reader: n-ary != is not a chain', w2_comparisons_and_positions, 4, 'T,F'),
     Rule('C12.W1', 'writer: list reductions fold from element 0 in index order, accumulator on the left (the interpreter\'s order)', w1_list_reductions, 9, 'F'),
@@ -598,6 +714,15 @@ RULES = [
 from ..selftest import Mutant  # noqa: E402
 
 MUTANTS = [
+    Mutant('reader-unwraps-every-property', FRONT, "                    new_props[pythonize_id(k)] = self._visit_data(v.value) if isinstance(v, fpc.Data) else v", "                    new_props[pythonize_id(k)] = self._visit_data(v.value)", 'C12.R4',
+           'finding F69 before its repair: Function.from_fpcore on the compiled core of sum(xs) raises AttributeError'),
+    Mutant('comprehension-index-reads-a-fixed-name', BACK, "                    idx_expr = fpc.Ctx(idx_ctx, fpc.Div(fpc.Var(iter_id), mul_expr))", "                    idx_expr = fpc.Ctx(idx_ctx, fpc.Div(fpc.Var('k'), mul_expr))", 'C12.W3',
+           'finding F68 before its repair: a program variable `k` is used as the flat position'),
+    Mutant('comprehension-middle-index-over-all-later-sizes', BACK, "                    mul_expr = _nary_mul([fpc.Var(id) for id in size_ids[i + 1:]])", "                    mul_expr = _nary_mul([fpc.Var(id) for id in size_ids[1:]])", 'C12.W3',
+           'finding F68 before its repair: wrong middle index for three or more iterables'),
+    Mutant('comprehension-elements-bound-to-fresh-names', BACK, "                        ref_bind = (str(target), fpc.Ref(fpc.Var(tid), fpc.Var(iid)))", "                        ref_bind = (str(self.gensym.refresh(target)), fpc.Ref(fpc.Var(tid), fpc.Var(iid)))", 'C12.W3',
+           'finding F68 before its repair: the element expression reads an unbound name'),
+    Mutant('comprehension-innermost-first', BACK, "                    idx_expr = fpc.Ctx(idx_ctx, fpc.Fmod(fpc.Var(iter_id), fpc.Var(size_ids[i])))", "                    idx_expr = fpc.Ctx(idx_ctx, fpc.Div(fpc.Var(iter_id), _nary_mul([fpc.Var(id) for id in size_ids[:i]])))", 'C12.W3'),
     Mutant('while-condition-statements-hoisted', FRONT, "        # compile condition\n        stmts: list[Stmt] = []\n        cond_e, recheck = self._loop_condition(e.cond, env, ctx, stmts)\n\n        # create loop body\n        loop_env = dict(env)",
            "        stmts: list[Stmt] = []\n        recheck: list[Stmt] = []\n        cond_e = self._visit(e.cond, _Ctx(env=env, props=ctx.props, stmts=ctx.stmts))\n\n        # create loop body\n        loop_env = dict(env)", 'C12.R3',
            'finding F51 before its repair'),
